@@ -2338,3 +2338,26 @@ def data_cache_warmer_chained():
 
 # every scenario function of this module, by name (names start with "data_")
 SCENARIOS = {_k: _v for _k, _v in sorted(globals().items()) if _k.startswith("data_") and callable(_v)}
+
+
+def data_cache_warmer_slow_store():
+    """CacheWarmer against a backing store whose reads take longer than the warm-up interval (20 ms reads
+    at 100 keys/s, and 1/3 s reads at 7 keys/s): every fetch outlasts the pacing delay."""
+    from happysimulator.components.datastore.cache_warming import CacheWarmer
+    from happysimulator.components.datastore.cached_store import CachedStore
+    from happysimulator.components.datastore.eviction_policies import LRUEviction
+    from happysimulator.components.datastore.kv_store import KVStore
+    out = {}
+    for tag, lat, rate in (("fast_rate", 0.02, 100.0), ("third", THIRD, 7.0)):
+        _seed(57)
+        kv = KVStore("kv", read_latency=lat)
+        for i in range(6):
+            kv.put_sync(f"k{i}", i)
+        cache = CachedStore("c", kv, 8, LRUEviction(), cache_read_latency=NS)
+        wm = CacheWarmer("warm", cache, keys_to_warm=[f"k{i}" for i in range(6)], warmup_rate=rate)
+        _run([kv, cache, wm], starters=[wm.start_warming], end=30.0)
+        out[tag] = [wm.stats.keys_warmed, wm.is_complete]
+    return out
+
+
+SCENARIOS["data_cache_warmer_slow_store"] = data_cache_warmer_slow_store
